@@ -6,6 +6,7 @@ package mcp
 import (
 	"context"
 	"fmt"
+	"io"
 	"strings"
 	"testing"
 
@@ -236,6 +237,84 @@ func c03Concurrent(version string) vs.Verdict {
 	return f.verdict(strings.Join(vs.Events(), ","))
 }
 
+// c03RawInit: a raw peer sends initialize (whose handling is slow), then makes the call's context
+// end - by cancelling the call or by disconnecting - and sends a later message.  The later
+// message's handler must still not start before the initialize handler has finished.
+func c03RawInit(version string) vs.Verdict {
+	f := &e1Fail{prefix: "c03 raw-init"}
+	ctx := context.Background()
+	variants := []string{"cancelled;ping", "cancelled;notification", "ping;eof", "notification;eof", "cancelled;call"}
+	variant := variants[vs.Choose("variant", len(variants), 0)]
+	ctl := vs.NewController()
+	gate := ctl.Gate("initialize")
+	s := NewServer(&Implementation{Name: "srv", Version: "1"}, &ServerOptions{Logger: quietLogger})
+	AddTool(s, &Tool{Name: "t"}, func(ctx context.Context, r *CallToolRequest, in c03Args) (*CallToolResult, any, error) {
+		return &CallToolResult{}, nil, nil
+	})
+	s.AddReceivingMiddleware(func(next MethodHandler) MethodHandler {
+		return func(ctx context.Context, method string, req Request) (Result, error) {
+			vs.Event("start %s", method)
+			if method == "initialize" {
+				gate.Wait() // slow, and not interruptible
+			}
+			res, err := next(ctx, method, req)
+			vs.Event("finish %s", method)
+			return res, err
+		}
+	})
+	ct, st := NewInMemoryTransports()
+	ss, err := s.Connect(ctx, st, nil)
+	if err != nil {
+		ctl.Stop()
+		return vs.Verdict{Bad: "connect failed: " + err.Error(), Sig: "c03 connect-failed"}
+	}
+	peer := ct.rwc
+	drained := make(chan struct{})
+	vs.Go(func() {
+		io.Copy(io.Discard, peer)
+		close(drained)
+	})
+	send := func(line string) { io.WriteString(peer, line+"\n") }
+	send(`{"jsonrpc":"2.0","id":1,"method":"initialize","params":{"protocolVersion":"` + version + `","capabilities":{},"clientInfo":{"name":"peer","version":"1"}}}`)
+	later := ""
+	for _, step := range strings.Split(variant, ";") {
+		switch step {
+		case "cancelled":
+			send(`{"jsonrpc":"2.0","method":"notifications/cancelled","params":{"requestId":1,"reason":"changed my mind"}}`)
+		case "ping":
+			send(`{"jsonrpc":"2.0","id":2,"method":"ping"}`)
+			later = "ping"
+		case "call":
+			send(`{"jsonrpc":"2.0","id":2,"method":"tools/call","params":{"name":"t","arguments":{"k":0}}}`)
+			later = "tools/call"
+		case "notification":
+			send(`{"jsonrpc":"2.0","method":"notifications/roots/list_changed","params":{}}`)
+			later = "notifications/roots/list_changed"
+		case "eof":
+			peer.Close()
+		}
+	}
+	vs.WaitIdle()
+	ctl.Stop()
+	vs.Quiet(true)
+	peer.Close()
+	ss.Close()
+	<-drained
+	vs.Quiet(false)
+	evs := vs.Events()
+	// (a call cancelled before its handler started is legitimately never handled)
+	fin, st2 := evIndex(evs, "finish initialize"), evIndex(evs, "start "+later)
+	if evIndex(evs, "start initialize") < 0 {
+		return f.verdict(variant + ": " + strings.Join(evs, ","))
+	}
+	if fin < 0 {
+		f.failf("initialize-handler-not-finished", "variant %s: %s", variant, evJoin(evs))
+	} else if st2 >= 0 && (fin < 0 || st2 < fin) {
+		f.failf("later-message-overtakes-initialize", "variant %s: the handler of %s started before the initialize handler finished: %s", variant, later, evJoin(evs))
+	}
+	return f.verdict(variant + ": " + strings.Join(evs, ","))
+}
+
 func TestVerifC03(t *testing.T) {
 	env := verifx.LoadEnv("C03")
 	b := env.Pick(1, 2)
@@ -243,6 +322,7 @@ func TestVerifC03(t *testing.T) {
 		vs.E1(t, "inmem/c2s/2025-06-18", b, vs.Options{}, func() vs.Verdict { return c03Run("c2s", "2025-06-18", 3) }),
 		vs.E1(t, "inmem/s2c/2025-06-18", b, vs.Options{}, func() vs.Verdict { return c03Run("s2c", "2025-06-18", 3) }),
 		vs.E1(t, "inmem/concurrent-calls", b, vs.Options{}, func() vs.Verdict { return c03Concurrent("2025-06-18") }),
+		vs.E1(t, "raw/initialize-context-ends/2025-06-18", env.Pick(2, 3), vs.Options{}, func() vs.Verdict { return c03RawInit("2025-06-18") }),
 	}
 	env.Run(scs)
 }
